@@ -31,3 +31,39 @@ Definition marker_table (k : dkeys) : dtable := {|
 
 Definition api_describe (tbl : optable) (k : dkeys) (e : ast) : str := describe tbl (marker_table k) e.
 Definition api_expr (tbl : optable) (e : ast) : str := expr tbl e.
+
+(** * History-level API: every public entry point of lib.rs as a state transformer *)
+From EE Require Import Eval.
+
+Definition api_tbl (b : registries) (st : state) : optable := tbl_of (s_regs (ensure_init b st)).
+
+Definition api_h_lex (b : registries) (st : state) (s : str) : (list stoken * terminal) * state :=
+  let st := ensure_init b st in (lex (tbl_of (s_regs st)) s, st).
+
+Definition api_h_parse (b : registries) (st : state) (s : str) : outcome ast * state := do_parse b st s.
+
+Definition api_h_exec (b : registries) (st : state) (s : str) (c : N) : eres * state := run_exec b s c st.
+
+Definition api_def_script (st : state) (h : hid) (s : script) : state := set_scripts st ((h, s) :: s_scripts st).
+
+Definition api_reg_function (b : registries) (st : state) (n : str) (h : hid) : eres * state :=
+  do_register b LFunc st (fun st => reg_func st n (HScript h)).
+Definition api_reg_prefix (b : registries) (st : state) (n : str) (h : hid) : eres * state :=
+  do_register b LPrefix st (fun st => reg_prefix st n (HScript h)).
+Definition api_reg_postfix (b : registries) (st : state) (n : str) (h : hid) : eres * state :=
+  do_register b LPostfix st (fun st => reg_postfix st n (HScript h)).
+Definition api_reg_infix (b : registries) (st : state) (n : str) (p : Z) (setter right : bool) (h : hid) : eres * state :=
+  do_register b LInfix st (fun st => reg_infix st n {| ic_prec := p; ic_setter := setter; ic_right := right |} (HScript h)).
+
+Definition api_ctx_set (st : state) (c : N) (n : str) (v : cval) : state := ctx_set st c n v.
+
+(* bindings of context c, newest binding of each name only, in insertion order of first appearance *)
+Fixpoint dedup (seen : list str) (l : context) : context :=
+  match l with
+  | [] => []
+  | (n, v) :: r => if mem n seen then dedup seen r else (n, v) :: dedup (n :: seen) r
+  end.
+Definition api_ctx_dump (st : state) (c : N) : context := dedup [] (ctx_of st c).
+
+Definition api_log (st : state) : list (hid * list value) := rev' (s_log st).
+Definition api_clear_log (st : state) : state := set_log st [].
